@@ -127,7 +127,7 @@ class Splitter:
                 raise BlockAbortedException(
                     abort_reason=f"Unexpected block start: `{m.group(0)}`. "
                     f"Was still looking for closing bracket",
-                    end_index=m.start() - 1,
+                    end_index=m.start(),
                 )
 
     def _move_to_comma_or_closing_curly_bracket(
@@ -192,7 +192,7 @@ class Splitter:
                 raise BlockAbortedException(
                     abort_reason=f"Unexpected block start: `{next_mark.group(0)}`. "
                     f"Was still looking for field-value closing {looking_for} ",
-                    end_index=next_mark.start() - 1,
+                    end_index=next_mark.start(),
                 )
 
     def _move_to_end_of_entry(self, first_key_start: int) -> Tuple[List[Field], int, Set[str]]:
@@ -282,6 +282,7 @@ class Splitter:
                 self._implicit_comment_start = None
 
                 start_line = self._current_line
+                next_block_start = None
                 try:
                     # Start new block parsing
                     if m_val.startswith("@comment"):
@@ -310,6 +311,9 @@ class Splitter:
                             error=e,
                         )
                     )
+                    # Whatever follows the failed block (including the mark that was
+                    # handed back) belongs to what comes next, not to nobody.
+                    next_block_start = e.end_index
 
                 except ParserStateException as e:
                     # This is a bug in the parser, not in the bibtex. We should not continue.
@@ -326,7 +330,9 @@ class Splitter:
                     )
                     raise e
 
-                self._reset_block_status(current_char_index=self._current_char_index + 1)
+                if next_block_start is None:
+                    next_block_start = self._current_char_index + 1
+                self._reset_block_status(current_char_index=next_block_start)
             else:
                 # Part of implicit comment
                 continue
@@ -383,7 +389,7 @@ class Splitter:
             self._unaccepted_mark = comma_mark
             raise BlockAbortedException(
                 abort_reason=f"Expected comma after entry key, but found {comma_mark.group(0)}",
-                end_index=comma_mark.end(),
+                end_index=comma_mark.start(),
             )
         else:
             self._open_brackets += 1
@@ -423,7 +429,7 @@ class Splitter:
             raise BlockAbortedException(
                 abort_reason="Expected equals sign after field key,"
                 f" but found {equals_mark.group(0)}",
-                end_index=equals_mark.end(),
+                end_index=equals_mark.start(),
             )
         key = self.bibstr[m.end() + 1 : equals_mark.start()].strip()
         value_start = equals_mark.end()
